@@ -95,42 +95,42 @@ macro_rules! hist_property {
 }
 
 hist_property!(
-    c01, "C01", hist::ALLOC_PROFILE, 10000, 40_000, 200,
+    c01, "C01", hist::ALLOC_PROFILE, 10000, 120_000, 200,
     |f, _| f.index_reuse > 0,
     "proptest histories vec(op,0..=40 quick / 0..=200 thorough) over all creation paths (create_entity built/dropped, create_iter, Entities::create/create_iter/build_entity built/dropped, LazyUpdate::create_entity, creations inside lazy closures), all deletion paths and maintain; oracle: every returned handle is new, positive generation, index not occupied by a not-yet-dead entity, (&entities).join() has no duplicate index, allocator self-check hook; non-trivial = the history reuses at least one index; distinct = distinct case hash",
     false
 );
 
 hist_property!(
-    c02, "C02", hist::ALLOC_PROFILE, 10000, 40_000, 200,
+    c02, "C02", hist::ALLOC_PROFILE, 10000, 120_000, 200,
     |f, _| f.stale_delete > 0 || f.failing_batch > 0,
     "histories as C01; after every step Entities::is_alive of every handle ever returned, World::is_alive (dead => false, merged live => true), results of delete_entity / delete_entities (failing position, named entity) / Entities::delete and (&entities).join() are compared with the timeline model; non-trivial = the history contains a deletion through a dead handle or a failing batch",
     false
 );
 
 hist_property!(
-    c17, "C17", hist::ALLOC_PROFILE, 10000, 40_000, 400,
+    c17, "C17", hist::ALLOC_PROFILE, 10000, 80_000, 400,
     |f, _| f.death_then_creation > 0,
     "histories as C01 (thorough: up to 400 ops); oracle on every creation: index < running peak of simultaneously not-yet-dead entities, a never-used index only when every lower index is occupied, allocator self-check (no dead index missing from the free list); non-trivial = a deletion took effect before a later creation",
     false
 );
 
 hist_property!(
-    c03, "C03", hist::STALE_PROFILE, 8000, 30_000, 150,
+    c03, "C03", hist::STALE_PROFILE, 8000, 100_000, 150,
     |f, _| f.stale_access_occupied_with_comp > 0,
     "histories biased towards dead handles whose index has been re-occupied; every handle-taking access path (get, contains, get_mut, insert, remove, entry, get_mut_or_default, lending-join get incl. maybe(), restricted get_other/get_other_mut, lazy insert/remove) is exercised through stale handles on every storage kind, plus a read scan of all dead handles x all storages after every step; non-trivial = a mutating access through a stale handle whose index is occupied by a newer entity holding a component in that storage",
     true
 );
 
 hist_property!(
-    c05, "C05", hist::PURGE_PROFILE, 8000, 30_000, 150,
+    c05, "C05", hist::PURGE_PROFILE, 8000, 100_000, 150,
     |f, _| f.multi_storage_death_then_reuse > 0,
     "histories over 3..8 storages of mixed kinds, each made known through a generated path (register, register_with_storage, setup of Read/WriteStorage, Dispatcher::setup, World::exec); after every step every storage's mask, count and every (handle, storage) lookup is compared with the model; non-trivial = an entity holding components in >= 2 storages died and its index was reused later",
     true
 );
 
 hist_property!(
-    c09, "C09", hist::LAZY_PROFILE, 8000, 30_000, 150,
+    c09, "C09", hist::LAZY_PROFILE, 8000, 100_000, 150,
     |f, _| f.max_queue_in_one_maintain >= 3 && f.lazy_nested > 0 && (f.lazy_dead_target > 0 || f.lazy_reused_target > 0),
     "histories mixing lazy insert / insert_all / remove / lazy builders / closures (nested to depth 3; closures create, delete, insert, observe and queue more) with direct operations and maintains; the execution log written by the closures is compared entry by entry with the model's FIFO processing, each closure's own observation of aliveness/components is compared with the model state at that point; non-trivial = >= 3 actions in one maintain, a nested action, and a target that was dead or on a reused index",
     false
